@@ -71,6 +71,16 @@ def cases(tier, seed):
         n_in = R.choice([2, 3, 5])
         add("mtan", R.randrange(n_in), n_inputs=n_in, big=(i % 2 == 0), par=R.choice([1, 2, 4]) if i else 2)
         add("mwcs", R.randrange(n_in), n_inputs=n_in, how=R.choice(["reproject", "update"]), par=R.choice([1, 2, 4]) if i else 2)
+    # late failures: the item fails only after a delay that outlasts every (dilated) queue time-out, so that the failing
+    # worker is the last one alive, and systematic failures: EVERY item fails (after a short delay), so that all workers die
+    # while the producer is still enqueueing
+    for st, d in (("leaves", 2), ("leaves", 3), ("doone", 2), ("walk", 3), ("leaves", 2)):
+        for k in (2, 4) if tier == "quick" else (2, 3, 4, 8):
+            allp = rq.all_positions(d, d) if st == "leaves" else (rq.all_positions(d) if st == "doone" else rq.all_positions(d - 1))
+            add(st, list(R.choice(allp[-4:])), depth=d, par=k, late=0.25, profile="natural")
+            add(st, list(allp[-1]), depth=d, par=k, late=0.15, profile="slow_workers")
+            if st != "walk":
+                add(st, "ALL", depth=d, par=k, late=0.05, profile="natural")
     for k in (1, 2) if tier == "quick" else (1, 2, 4, 8):
         add("cli_cascade", [2, R.randrange(4), R.randrange(4)], depth=2, par=k, fmt=R.choice(["npy", "png"]))
     return out
@@ -92,7 +102,11 @@ def _stage_fn(spec, workdir):
         def cb(pos):
             p = [int(pos.n), int(pos.x), int(pos.y)]
             evlog.ev("cb_start", pos=p)
-            if p == item:
+            if p == item or item == "ALL":
+                if spec.get("late"):
+                    import time as _time
+
+                    _time.sleep(spec["late"])
                 evlog.ev("fault_injected", pos=p)
                 evlog.ev("cb_exc", pos=p)
                 raise E("injected failure at %s" % p)
@@ -106,7 +120,11 @@ def _stage_fn(spec, workdir):
         def cb(pos, tile):
             p = [int(pos.n), int(pos.x), int(pos.y)]
             evlog.ev("cb_start", pos=p)
-            if p == item:
+            if p == item or item == "ALL":
+                if spec.get("late"):
+                    import time as _time
+
+                    _time.sleep(spec["late"])
                 evlog.ev("fault_injected", pos=p)
                 evlog.ev("cb_exc", pos=p)
                 raise E("injected failure at %s" % p)
@@ -134,7 +152,11 @@ def _stage_fn(spec, workdir):
         def do_one(buf, pos, pio_in, pio_out):
             p = [int(pos.n), int(pos.x), int(pos.y)]
             evlog.ev("cb_start", pos=p)
-            if p == item:
+            if p == item or item == "ALL":
+                if spec.get("late"):
+                    import time as _time
+
+                    _time.sleep(spec["late"])
                 evlog.ev("fault_injected", pos=p)
                 evlog.ev("cb_exc", pos=p)
                 raise E("injected failure at %s" % p)
